@@ -7,31 +7,15 @@
       [getNextSequenceSend] / [getAckStatus] views.
     * [monitor_failures]: the properties themselves as executable checks on the IMPLEMENTATION's trace alone
       (they never call the model's step function; they use the real decode / pack / sha256 / verify tables). *)
-From Teleport Require Import Base.Bytes Base.Outcome Base.AList Model.Packet.
+From Teleport Require Import Base.Bytes Base.Outcome Base.AList Model.Packet Model.PacketKeys.
 Local Open Scope N_scope.
 
-(** ** concrete key builders (host/keys.go) and the identifier validator (host/validate.go) *)
-Fixpoint dec_digits (fuel : nat) (n : N) (acc : bytes) : bytes :=
-  match fuel with
-  | O => acc
-  | S f => let d := byte_of_N (48 + n mod 10) in
-           if n / 10 =? 0 then d :: acc else dec_digits f (n / 10) (d :: acc)
-  end.
-Definition dec (n : N) : bytes := dec_digits 25 n [].
-
-Definition packet_path (s d : bytes) : bytes := s ++ B "/" ++ d.
-Definition seq_key (pre s d : bytes) (q : N) : bytes := pre ++ B "/" ++ packet_path s d ++ B "/sequences/" ++ dec q.
-Definition c_receipt_key := seq_key (B "receipts").
-Definition c_ack_key := seq_key (B "acks").
-Definition c_commitment_key := seq_key (B "commitments").
-Definition c_nextseq_key (s d : bytes) : bytes := B "nextSequenceSend/" ++ packet_path s d.
-
-Definition id_char (b : byte) : bool :=
-  let n := Byte.to_N b in
-  ((97 <=? n) && (n <=? 122)) || ((65 <=? n) && (n <=? 90)) || ((48 <=? n) && (n <=? 57))
-  || (n =? 46) || (n =? 95) || (n =? 43) || (n =? 45) || (n =? 35) || (n =? 91) || (n =? 93) || (n =? 60) || (n =? 62).
-Definition c_valid_name (s : bytes) : bool :=
-  Nat.leb 3 (length s) && Nat.leb (length s) 64 && forallb id_char s.
+(** ** the real key builders (regenerated from host/keys.go, see Model/PacketKeys.v) and identifier validator *)
+Definition c_receipt_key := k_receipt.
+Definition c_ack_key := k_ack.
+Definition c_commitment_key := k_commitment.
+Definition c_nextseq_key := k_nextseq.
+Definition c_valid_name := k_valid.
 
 (** ** oracle tables *)
 Definition packet_eqb (a b : packet) : bool :=
